@@ -60,6 +60,10 @@ pub struct Case {
     pub cfg: String,
     pub dialect: usize,
     pub origin: String,
+    /// reuse stream (tree-sitter front-ends): the text handed to `create_ident_dict` of the SAME parser instance
+    /// right before `text` is parsed with it (an editor keeps one parser per file; harper-ls builds the identifier
+    /// dictionary from one state of the buffer and may check another)
+    pub prior: Option<String>,
 }
 
 const DIALECTS: [Dialect; 4] = [Dialect::American, Dialect::British, Dialect::Canadian, Dialect::Australian];
@@ -67,8 +71,12 @@ const DIALECT_NAMES: [&str; 4] = ["American", "British", "Canadian", "Australian
 
 impl Case {
     fn to_json(&self) -> Value {
-        json!({"kind": "doc", "frontend": self.fe, "text": self.text, "config": self.cfg, "dialect": DIALECT_NAMES[self.dialect % 4],
-               "origin": self.origin, "features": features(&self.fe, &self.text)})
+        let mut v = json!({"kind": "doc", "frontend": self.fe, "text": self.text, "config": self.cfg, "dialect": DIALECT_NAMES[self.dialect % 4],
+               "origin": self.origin, "features": features(&self.fe, &self.text)});
+        if let Some(p) = &self.prior {
+            v["prior"] = json!(p);
+        }
+        v
     }
     fn from_json(v: &Value) -> Option<Case> {
         if v.get("kind").and_then(|k| k.as_str()).unwrap_or("doc") != "doc" {
@@ -81,6 +89,7 @@ impl Case {
             cfg: v["config"].as_str().unwrap_or("all").to_string(),
             dialect: DIALECT_NAMES.iter().position(|n| *n == d).unwrap_or(0),
             origin: v["origin"].as_str().unwrap_or("corpus").to_string(),
+            prior: v["prior"].as_str().map(|s| s.to_string()),
         })
     }
 }
@@ -279,7 +288,10 @@ impl Worker {
     pub fn run_staged(&mut self, c: &Case, stage: &AtomicUsize) -> Outcome {
         let t0 = Instant::now();
         let dict = self.dict.clone();
-        let doc = match guarded_loc(|| frontends::make_document(&c.fe, &c.text, &dict)) {
+        let doc = match guarded_loc(|| match &c.prior {
+            Some(prior) => make_document_reuse(&c.fe, prior, &c.text, &dict),
+            None => frontends::make_document(&c.fe, &c.text, &dict),
+        }) {
             Ok(d) => d,
             Err((msg, loc)) => return Outcome::Panic { stage: "document", msg, loc },
         };
@@ -798,6 +810,92 @@ fn prefixes(text: &str) -> Vec<String> {
     out
 }
 
+/// ONE parser instance: `create_ident_dict(prior)`, then the document of `text` is built with the same instance.
+fn make_document_reuse(fe: &str, prior: &str, text: &str, dict: &Arc<FstDictionary>) -> harper_core::Document {
+    use harper_core::parsers::MarkdownOptions;
+    let mdo = MarkdownOptions::default();
+    let a: Arc<Vec<char>> = Arc::new(prior.chars().collect());
+    let source: Vec<char> = text.chars().collect();
+    if fe == "lhaskell" {
+        let p = harper_literate_haskell::LiterateHaskellParser::new_markdown(mdo);
+        let _ = p.create_ident_dict(&a, mdo);
+        harper_core::Document::new_from_vec(harper_core::Lrc::new(source), &p, dict)
+    } else {
+        let lang = fe.strip_prefix("c:").unwrap_or(fe);
+        let p = harper_comments::CommentParser::new_from_language_id(lang, mdo).expect("unknown language id");
+        let _ = p.create_ident_dict(&a);
+        harper_core::Document::new_from_vec(harper_core::Lrc::new(source), &p, dict)
+    }
+}
+
+/// The reuse stream: for every tree-sitter front-end, histories `create_ident_dict(A); parse(B)` on one parser with
+/// B != A — prefixes of A (x 3 endings), A with a line deleted / inserted / replaced by multi-byte text, A with its
+/// ASCII letters made multi-byte (and the other way round), an unrelated file, the empty text.  Its own Rng: the
+/// documents of the other streams do not move.
+fn reuse_cases(a: &Args) -> Vec<Case> {
+    let mut r = Rng::new(a.seed ^ 0x7ee5_17e2);
+    let mut cases = vec![];
+    let mut fes: Vec<String> = frontends::COMMENT_LANGS.iter().map(|l| format!("c:{l}")).collect();
+    fes.push("lhaskell".into());
+    let per_fe = a.scale(3, 24) as usize;
+    let mut idx = 0usize;
+    for fe in &fes {
+        for i in 0..per_fe {
+            let mut full = frontends::embed(fe, &mut r);
+            if i % 3 == 1 {
+                full = format!("{full}\n{}", frontends::embed(fe, &mut r));
+            }
+            if full.chars().count() > 1500 {
+                continue;
+            }
+            let cs: Vec<char> = full.chars().collect();
+            let lines: Vec<&str> = full.split('\n').collect();
+            let mut variants: Vec<(String, String, &str)> = vec![];
+            // prefixes of A at a few cut points, three endings
+            for _ in 0..2 {
+                if cs.len() > 1 {
+                    let k = r.range(1, cs.len() - 1);
+                    let p: String = cs[..k].iter().collect();
+                    variants.push((full.clone(), p.clone(), "prefix"));
+                    variants.push((full.clone(), format!("{p} "), "prefix"));
+                    variants.push((full.clone(), format!("{p}\n"), "prefix"));
+                }
+            }
+            // a line deleted / inserted
+            if lines.len() > 1 {
+                let k = r.below(lines.len());
+                let mut del = lines.clone();
+                del.remove(k);
+                variants.push((full.clone(), del.join("\n"), "line-deleted"));
+                let mut ins = lines.clone();
+                ins.insert(k, lines[r.below(lines.len())]);
+                variants.push((full.clone(), ins.join("\n"), "line-inserted"));
+            }
+            // multi-byte content on one side only
+            let na = nonascii_mutate(&full, &mut r);
+            variants.push((na.clone(), full.clone(), "non-ascii-then-ascii"));
+            variants.push((full.clone(), na.clone(), "ascii-then-non-ascii"));
+            if cs.len() > 2 {
+                let k = r.range(1, cs.len() - 1);
+                variants.push((na, cs[..k].iter().collect(), "non-ascii-then-prefix"));
+            }
+            // an unrelated file, the empty text, and the control: the same text
+            variants.push((full.clone(), frontends::embed(fe, &mut r), "unrelated"));
+            variants.push((frontends::embed(fe, &mut r), full.clone(), "unrelated"));
+            variants.push((full.clone(), String::new(), "then-empty"));
+            variants.push((full.clone(), full.clone(), "same-text"));
+            for (prior, text, how) in variants {
+                if text.chars().count() > 4000 {
+                    continue;
+                }
+                cases.push(Case { fe: fe.clone(), text, cfg: ["default", "all"][idx % 2].to_string(), dialect: idx / 2, origin: format!("reuse:{how}"), prior: Some(prior) });
+                idx += 1;
+            }
+        }
+    }
+    cases
+}
+
 fn cfg_for(i: usize, r: &mut Rng) -> String {
     match i % 3 {
         0 => "default".into(),
@@ -825,12 +923,12 @@ fn generate(a: &Args, r: &mut Rng) -> Vec<Case> {
         }
         if full_product {
             for (k, cfg) in ["default", "all"].iter().enumerate() {
-                cases.push(Case { fe: fe.into(), text: text.clone(), cfg: cfg.to_string(), dialect: idx + k, origin: origin.into() });
+                cases.push(Case { fe: fe.into(), text: text.clone(), cfg: cfg.to_string(), dialect: idx + k, origin: origin.into(), prior: None });
             }
-            cases.push(Case { fe: fe.into(), text, cfg: format!("random:{}", r.below(1_000_000)), dialect: idx + 2, origin: origin.into() });
+            cases.push(Case { fe: fe.into(), text, cfg: format!("random:{}", r.below(1_000_000)), dialect: idx + 2, origin: origin.into(), prior: None });
         } else {
             let cfg = cfg_for(idx, r);
-            cases.push(Case { fe: fe.into(), text, cfg, dialect: idx / 3, origin: origin.into() });
+            cases.push(Case { fe: fe.into(), text, cfg, dialect: idx / 3, origin: origin.into(), prior: None });
         }
         idx += 1;
     };
@@ -941,6 +1039,7 @@ fn generate(a: &Args, r: &mut Rng) -> Vec<Case> {
             }
         }
     }
+    cases.extend(reuse_cases(a));
     cases
 }
 
@@ -990,7 +1089,7 @@ fn scaling_probe(rep: &mut Report, a: &Args) {
                 // `{i}` in a unit is replaced by a running number, so that no two sentences are equal
                 // (LintGroup caches lints per chunk text)
                 let text: String = (0..reps0 * mult).map(|i| unit.replace("{i}", &(i * 7 + 13).to_string())).collect();
-                let c = Case { fe: fe.into(), text, cfg: "all".into(), dialect: 0, origin: "scaling".into() };
+                let c = Case { fe: fe.into(), text, cfg: "all".into(), dialect: 0, origin: "scaling".into(), prior: None };
                 w.prepare(&c);
                 // a fresh configuration hash per measurement: nothing is answered from the cache of an earlier one
                 probe_no += 1;
